@@ -25,5 +25,6 @@ def run(prog, chk):
     C.bucket_index(prog, chk, "C02.f", H)
     C.iterator_param_alias(prog, chk, "C02.g", H)
     C.wrappers(prog, chk, "C02.w", H)
+    C.lockstep_equality(prog, chk, "C02.i", ("HashMap", "HashSet"))
     # assignment (listed in the statement): a = a must not empty the table before reading it
     C.self_assign(prog, chk, "C02.h", ("HashMap", "HashSet"))
